@@ -437,7 +437,6 @@ theorem render_starts_with_name (o : Opt) : ∃ a, render1 (o, .attached) = [a] 
   | package v => exact ⟨_, rfl, by simp [startsWith, Opt.spelling]⟩
 
 def litHelp : Bytes := [45, 104]   -- -h
-def litRunIgnored : Bytes := [45, 114, 105]   -- -ri
 
 /-- **usage() mentions every option** of the `Opt` datatype … -/
 theorem usage_mentions_every_option : ∀ n ∈ optNames, n ∈ Gen.ParseDispatch.usageEntries := by decide
@@ -448,16 +447,9 @@ theorem usage_mentions_only_options : ∀ t ∈ Gen.ParseDispatch.usageEntries, 
 /-- help() mentions nothing but options of the datatype (and `-h`) -/
 theorem help_mentions_only_options : ∀ t ∈ Gen.ParseDispatch.helpEntries, t ∈ optNames ∨ t = litHelp := by decide
 
-/-- FULL statement: help() mentions every option.  It is FALSE on the unchanged tree: `-ri` (run
-    ignored tests) is dispatched and listed in usage() but has no line in help(). -/
-def help_mentions_every_option_full : Prop := ∀ n ∈ optNames, n ∈ Gen.ParseDispatch.helpEntries
-
-theorem help_mentions_every_option_fails_known : ¬ help_mentions_every_option_full := by
-  intro h; exact absurd (h litRunIgnored (by decide)) (by decide)
-
-/-- what holds: every option except `-ri` has its line in help() -/
-theorem help_mentions_every_option_partial :
-    ∀ n ∈ optNames, n ∈ Gen.ParseDispatch.helpEntries ∨ n = litRunIgnored := by decide
+/-- **help() mentions every option** of the `Opt` datatype (full strength: `-ri` has had its line
+    since the commit "fix: help text documents the -ri option"). -/
+theorem help_mentions_every_option : ∀ n ∈ optNames, n ∈ Gen.ParseDispatch.helpEntries := by decide
 
 /-- a documented spelling is matched by some branch of the (regenerated) chain of `parse` -/
 def genDispatches (t : Bytes) : Bool :=
@@ -475,9 +467,9 @@ theorem dispatched_options_documented :
       Gen.ParseDispatch.usageEntries.any (fun t => t == e.lit || (e.lit == [45, 111] && e.lit.isPrefixOf t)) = true := by
   decide
 
-/-- the same for help(), where only `-ri` is missing -/
+/-- the same for help() -/
 theorem dispatched_options_in_help :
-    ∀ e ∈ Gen.ParseDispatch.table, e.lit = litRunIgnored ∨
+    ∀ e ∈ Gen.ParseDispatch.table,
       Gen.ParseDispatch.helpEntries.any (fun t => t == e.lit || (e.lit == [45, 111] && e.lit.isPrefixOf t)) = true := by
   decide
 
